@@ -233,6 +233,7 @@ func (ipv6 *IPv6) DecodeFromBytes(data []byte, df gopacket.DecodeFeedback) error
 	ipv6.DstIP = data[24:40]
 	ipv6.HopByHop = nil
 	ipv6.BaseLayer = BaseLayer{data[:40], data[40:]}
+	hbhLength := 0
 
 	// We treat a HopByHop IPv6 option as part of the IPv6 packet, since its
 	// options are crucial for understanding what's actually happening per packet.
@@ -260,6 +261,7 @@ func (ipv6 *IPv6) DecodeFromBytes(data []byte, df gopacket.DecodeFeedback) error
 			return errors.New("IPv6 length 0, but HopByHop header does not have jumbogram option")
 		} else {
 			ipv6.Payload = ipv6.Payload[ipv6.hbh.ActualLength:]
+			hbhLength = ipv6.hbh.ActualLength
 		}
 	}
 
@@ -267,7 +269,11 @@ func (ipv6 *IPv6) DecodeFromBytes(data []byte, df gopacket.DecodeFeedback) error
 		return fmt.Errorf("IPv6 length 0, but next header is %v, not HopByHop", ipv6.NextHeader)
 	}
 
-	pEnd := int(ipv6.Length)
+	// Length counts the hop-by-hop header, which has been taken off Payload above.
+	pEnd := int(ipv6.Length) - hbhLength
+	if pEnd < 0 {
+		pEnd = 0
+	}
 	if pEnd > len(ipv6.Payload) {
 		df.SetTruncated()
 		pEnd = len(ipv6.Payload)
